@@ -165,7 +165,9 @@ class Assembler:
                     self.predeclare(st["e"], scope)
 
     def expand(self, stmts, scope, depth=0, fresh=True):
-        if depth > 60:
+        if depth > 330:
+            # (two levels per recursive application: the macro body and its .if) beyond ~160 nested applications the
+            # assembler's own interpreter stack decides
             raise Unspecified("expansion depth")
         if fresh:
             self.predeclare(stmts, scope)
